@@ -176,6 +176,12 @@ class ModelsOps:
             return l is r
         if isinstance(l, EnumV):
             return l.member == r.member
+        if isinstance(l, FuncV):
+            return l.name == r.name
+        if isinstance(l, PyFuncV):
+            return l is r or (l.fi is r.fi and l.self_val is None and r.self_val is None)
+        if isinstance(l, (TupleV, StrV, BoolV, DictV)):
+            return l is r
         if isinstance(l, OpaqueV):
             if l is r:
                 return True
@@ -546,9 +552,33 @@ class ModelsOps:
         uid = self.st.ufind(unit.uid) if isinstance(unit, UnitV) else "?"
         return Num(RF.atom(("conv", getattr(qty, "name", "q"), uid)), "exact")
 
+    def is_exception_class(self, name) -> bool:
+        from .interp import _BUILTIN_EXC
+        if name in _BUILTIN_EXC:
+            return True
+        ci = self.prog.classes.get(name)
+        seen = set()
+        while ci is not None and ci.name not in seen:
+            seen.add(ci.name)
+            for b in ci.base_names:
+                b = b.split(".")[-1]
+                if b in _BUILTIN_EXC:
+                    return True
+            nxt = None
+            for b in ci.base_names:
+                if b.split(".")[-1] in self.prog.classes:
+                    nxt = self.prog.classes[b.split(".")[-1]]
+                    break
+            ci = nxt
+        return False
+
     def call_type(self, t: TypeV, args, kwargs, node):
         I = self.I
         name = t.name
+        if self.is_exception_class(name):
+            fr = I.frames[-1] if I.frames else None
+            where = f"{fr.fi.qualname}:{getattr(node, 'lineno', '?')}" if fr is not None and fr.fi is not None else None
+            return ExcObjV(ExcV(name, tuple(args), node, where))
         if name == "Decimal":
             return self.make_decimal(args, node)
         if name == "Fraction":
@@ -648,6 +678,9 @@ class ModelsOps:
         if isinstance(v, TupleV):
             return TypeV("tuple")
         if isinstance(v, OpaqueV):
+            kinds = getattr(v, "kinds", None)
+            if kinds and len(kinds) == 1 and next(iter(kinds)) in ("date", "int"):
+                return TypeV(next(iter(kinds)))
             o = OpaqueV(f"type({v.tag})")
             o.type_of = v
             return o
@@ -860,6 +893,37 @@ class ModelsOps:
             if all(sq is not None for sq in seqs):
                 self.st.effects.append(("map", args[0], seqs, self.where(node)))
                 return ListV([self.call(args[0], list(t), {}, node) for t in zip(*seqs)])
+        if name == "map" and len(args) == 2:
+            # opaque source: no element at all, or one symbolic element standing for all
+            if not getattr(args[1], "nonempty", False) and \
+                    I.choose(2, f"loop@{getattr(node, 'lineno', '?')}", ["0-iter", ">=1-iter"]) == 0:
+                lv = ListV([])
+                lv.lazy = True
+                return lv
+            lv = ListV(None, tag="map", opaque_elem=self.call(args[0], [self.opaque_element(args[1], node)], {}, node))
+            lv.lazy = True
+            lv.src_iter = args[1]
+            lv.nonempty = True
+            return lv
+        if name == "filter" and len(args) == 2:
+            pred, src = args
+            sq = self.iterate(src, node)
+
+            def keeps(x):
+                return self.truth(x if isinstance(pred, NoneV) else self.call(pred, [x], {}, node), node)
+            if sq is not None:
+                lv = ListV([x for x in sq if keeps(x)])
+                lv.lazy = True
+                return lv
+            elem = self.opaque_element(src, node)
+            if keeps(elem):
+                lv = ListV(None, tag="filter", opaque_elem=elem)
+                lv.src_iter = src
+                lv.nonempty = getattr(src, "nonempty", False)
+            else:
+                lv = ListV([])      # the representative element is dropped: nothing passes
+            lv.lazy = True
+            return lv
         if name == "enumerate" and args:
             sq = self.iterate(args[0], node)
             if sq is not None:
@@ -937,6 +1001,17 @@ class ModelsOps:
                     I.raise_("StopIteration", node)
                 it.pos += 1
                 return it.seq[it.pos - 1]
+            if isinstance(it, GenV) or (isinstance(it, ListV) and getattr(it, "lazy", False)):
+                sq = self.iterate(it, node)
+                if sq is not None:
+                    if sq:
+                        return sq[0]
+                elif getattr(it, "nonempty", False) or \
+                        I.choose(2, f"loop@{getattr(node, 'lineno', '?')}", ["0-iter", ">=1-iter"]) == 1:
+                    return self.opaque_element(it, node)
+                if len(args) > 1:
+                    return args[1]
+                I.raise_("StopIteration", node)
             return OpaqueV("next")
         if name == "builtin_sum":
             it = args[0]
